@@ -141,12 +141,21 @@ func (c CurlyRouter) detectWebService(requestTokens []string, webServices []*Web
 	score := -1
 	for _, each := range webServices {
 		matches, eachScore := c.computeWebserviceScore(requestTokens, each.pathExpr.tokens)
-		if matches && (eachScore > score) {
+		if matches && (eachScore > score || (eachScore == score && best != nil && c.winsTie(each, best))) {
 			best = each
 			score = eachScore
 		}
 	}
 	return best
+}
+
+// winsTie decides between two WebServices with the same score, so that the choice does not depend on the order of registration :
+// the root path with more tokens (it matches more of the URL) and otherwise the one that sorts first.
+func (c CurlyRouter) winsTie(candidate, best *WebService) bool {
+	if len(candidate.pathExpr.tokens) != len(best.pathExpr.tokens) {
+		return len(candidate.pathExpr.tokens) > len(best.pathExpr.tokens)
+	}
+	return candidate.rootPath < best.rootPath
 }
 
 // computeWebserviceScore returns whether tokens match and
